@@ -308,6 +308,7 @@ fn candidate(typ: &str, lv: &[(Vec<String>, String)], rng: &mut Rng) -> (Vec<Str
             "td0" => {
                 return match rng.below(10) {
                     0 => (p(&["td0", "comment", "notes"]), format!("{}\n{}", text(rng), text(rng)), "td0-notes-with-newline"),
+                    3 => (p(&["td0", "comment", "notes"]), format!("{}\r\n{}", text(rng), text(rng)), "td0-notes-with-crlf"),
                     1 => (p(&["td0", "header", "stepping", "_raw"]), format!("{:02x}", rng.below(3)), "td0-stepping-without-comment-flag"),
                     2 => (p(&["td0", "header", "stepping", "_raw"]), format!("{:02x}", 0x80 + rng.below(3)), "td0-stepping"),
                     _ => (p(&["td0", "comment", "notes"]), text(rng), "text"),
@@ -372,6 +373,8 @@ fn candidate(typ: &str, lv: &[(Vec<String>, String)], rng: &mut Rng) -> (Vec<Str
 fn normal(path: &[String], v: &str) -> String {
     match path.last().map(|s| s.as_str()) {
         Some("creator") if path.len() == 3 && path[1] == "info" => v.trim_end().to_string(), // 32 bytes, space padded by the WOZ spec
+        // TD0 stores line ends as NUL and loads them as LF: CR LF is normalised to LF when the notes are put
+        Some("notes") if path.len() == 3 && path[0] == "td0" => { let mut s = v.to_string(); while s.contains("\r\n") { s = s.replace("\r\n", "\n"); } s },
         _ => v.to_string()
     }
 }
@@ -397,6 +400,19 @@ fn random_edits(img: &mut Box<dyn DiskImage>, cfg: &Cfg, rng: &mut Rng, n: usize
         let jv = json::JsonValue::String(val.clone());
         let r = guarded(|| img.put_metadata(&path, &jv).map_err(|e| e.to_string()));
         let pstr = path.join("/");
+        // model tie of the put/get law (the standard WOZ2 META keys have pattern rules that are not modelled;
+        // key components with blanks or slashes cannot be sent over the line protocol)
+        let modelled = !(path.len() > 1 && path[1] == "meta") && path.iter().all(|k| !k.is_empty() && !k.contains('/') && !k.contains(' '))
+            && ["td0", "imd", "2mg", "woz1", "woz2"].contains(&typ.as_str());
+        if modelled {
+            let ans = match &r {
+                Err(_) => "panic".to_string(),
+                Ok(Err(_)) => "refused".to_string(),
+                Ok(Ok(())) => if is_ro(&path) { "skipped".to_string() } else {
+                    match lookup(&img.get_metadata(None), &path) { Some(v) => format!("ok {}", hx(v.as_bytes())), None => "ok ?".to_string() } }
+            };
+            out.q(&format!("c09 metaput {} /{} {}", typ, pstr, hx(val.as_bytes())), &ans);
+        }
         match r {
             Err(p) => {
                 out.oracle(false, "put_metadata-no-panic", &format!("c09/{}/put_metadata/panic:{}", cfg.typ, site(&p)), &format!("{} idx={} key=/{} val={:?} panic={}", tag, idx, pstr, val, p));
@@ -619,6 +635,9 @@ fn roundtrip_oracle(out: &mut Out, img: &mut Box<dyn DiskImage>, label: &str, ty
     // signature of the hazard (so that the finding key does not depend on which symptom shows first)
     let mut buf: Vec<(bool, String, String, String)> = Vec::new();
     macro_rules! emit { ($pass:expr, $name:expr, $sig:expr, $case:expr) => { buf.push(($pass, $name.to_string(), $sig.to_string(), $case.to_string())) } }
+    // sectors as seen BEFORE the first serialisation: `to_bytes` takes `&mut self` (2MG, TD0 and WOZ2 rewrite parts
+    // of the object), the object must stay the same disk afterwards and must serialise identically again
+    let pre = if img.byte_capacity() <= 4_000_000 { guarded(|| { let (_, g) = geometry(img); dump_sectors(img, &g) }).ok() } else { None };
     let b1 = match guarded(|| img.to_bytes()) {
         Ok(b) => b,
         Err(p) => { emit!(false, "to_bytes-no-panic", &sig(&format!("to_bytes-panic:{}", site(&p))), &format!("{} panic={}", case, p)); flush(out, buf, typ, hazards); return (Verdict { ok: false }, Vec::new()); }
@@ -627,7 +646,13 @@ fn roundtrip_oracle(out: &mut Out, img: &mut Box<dyn DiskImage>, label: &str, ty
         Ok(o) => o,
         Err(p) => { emit!(false, "observe-no-panic", &sig(&format!("observe-panic:{}", site(&p))), &format!("{} panic={}", case, p)); flush(out, buf, typ, hazards); return (Verdict { ok: false }, b1); }
     };
-    // serialising is repeatable
+    if let Some(pre) = &pre {
+        let first = pre.iter().zip(o1.sectors.iter()).find(|(a, b)| a != b);
+        let same = pre.len() == o1.sectors.len() && first.is_none();
+        ok &= same;
+        emit!(same, "object-intact-after-to_bytes", &sig("object-changed-by-to_bytes"), &format!("{} n={}/{} first={:?}", case, pre.len(), o1.sectors.len(), first));
+    }
+    // serialising is repeatable (same object, after every sector has been read again)
     match guarded(|| img.to_bytes()) {
         Ok(b) => { let same = b == b1; ok &= same; emit!(same, "to_bytes-repeatable", &sig("to_bytes-not-repeatable"), case); }
         Err(p) => { ok = false; emit!(false, "to_bytes-no-panic", &sig(&format!("to_bytes-panic:{}", site(&p))), &format!("{} panic={}", case, p)); }
@@ -755,7 +780,7 @@ fn tie_imd(out: &mut Out, img: &mut Box<dyn DiskImage>, b1: &[u8]) {
     out.q(&req, &format!("{} rt-ok", hx(b1)));
 }
 
-fn tie_td0(out: &mut Out, b1: &[u8], rng: &mut Rng, whole: bool) {
+fn tie_td0(out: &mut Out, b1: &[u8], rng: &mut Rng, whole: bool, notes: Option<String>) {
     let x = match retrocompressor::td0::expand_slice(b1) { Ok(x) => x, Err(_) => return };
     let t = match td_parse(&x) { Ok(t) => t, Err(_) => return };
     // sector records: what `pack` made of the content (content via the reference decoder of the stored record)
@@ -773,7 +798,8 @@ fn tie_td0(out: &mut Out, b1: &[u8], rng: &mut Rng, whole: bool) {
         }
     }
     if whole {
-        let com = match &t.comment { Some((h, text)) => format!("{}:{}", hx(&h[4..10]), hx(text)), None => "none".into() };
+        // the notes as the real object holds them (from get_metadata), not as stored: the model has to encode them
+        let com = match (&t.comment, &notes) { (Some((h, _)), Some(n)) => format!("{}:{}", hx(&h[4..10]), hx(n.as_bytes())), _ => "none".into() };
         let mut req = format!("c09 td0img {} {} {}", hx(&t.hdr[2..10]), com, t.tracks.len());
         for trk in &t.tracks {
             req += &format!(" {} {} {}", trk.hdr[0], trk.hdr[1], trk.hdr[2]);
@@ -812,7 +838,7 @@ fn case_created(ctx: &mut Ctx, idx: usize, cfg: &Cfg, rng: &mut Rng, heavy: bool
     let ne = rng.below(4);
     let elog = random_edits(&mut img, cfg, rng, ne, out, "A", idx);
     let case = format!("A idx={} cfg={} vol={} writes=[{}] edits=[{}]", idx, label, vol, wdesc.trim(), elog.desc.trim());
-    let hazards: Vec<&'static str> = elog.classes.iter().cloned().filter(|c| matches!(*c, "imd-comment-with-eof-char" | "td0-notes-with-newline" | "td0-stepping-without-comment-flag" | "woz2-meta-value-ending-in-cr" | "2mg-blocks-edit")).collect();
+    let hazards: Vec<&'static str> = elog.classes.iter().cloned().filter(|c| matches!(*c, "imd-comment-with-eof-char" | "td0-notes-with-newline" | "td0-stepping-without-comment-flag" | "woz2-meta-value-ending-in-cr" | "2mg-blocks-edit" | "td0-notes-with-crlf")).collect();
     let mut hints: Vec<Option<&str>> = vec![Some(ext_of(cfg.typ))];
     if self_identifying(cfg.typ) { hints.push(None); }
     let (v, b1) = roundtrip_oracle(out, &mut img, &label, cfg.typ, records_kind(cfg), &hints, &case, &hazards);
@@ -824,11 +850,20 @@ fn case_created(ctx: &mut Ctx, idx: usize, cfg: &Cfg, rng: &mut Rng, heavy: bool
     if b1.len() < 64 { return; }
     // model ties on the bytes the real code produced
     match cfg.typ {
-        "woz1" | "woz2" => tie_woz(out, &b1, cfg.typ == "woz1" && idx % 8 == 6),
+        "woz1" | "woz2" => {
+            tie_woz(out, &b1, cfg.typ == "woz1" && idx % 8 == 6);
+            if cfg.typ == "woz2" && cfg.kind_name == "A2_DOS32" { out.q(&format!("c09 woz2save {}", hx(&b1)), &format!("1536 1536 {} {} stable reparse-ok", b1.len(), le32(&b1[8..12]))); }
+        }
         "imd" => if b1.len() < 120_000 || idx % 16 == 3 { let _ = guarded(|| tie_imd(out, &mut img, &b1)); },
-        "td0" => tie_td0(out, &b1, rng, b1.len() < 60_000),
+        "td0" => { let notes = lookup(&img.get_metadata(None), &["td0".to_string(), "comment".to_string(), "notes".to_string()]); tie_td0(out, &b1, rng, b1.len() < 60_000, notes) },
         "2mg" => tie_2mg(out, &b1, rng),
         _ => {}
+    }
+    // the SAME object keeps working after it has been serialised: write again, run the oracle again
+    if v.ok && !b1.is_empty() && b1.len() < 1_200_000 && hazards.is_empty() {
+        let w2 = random_writes(&mut img, cfg.typ, &geo, rng, 2, out);
+        let (v2, _) = roundtrip_oracle(out, &mut img, &label, cfg.typ, records_kind(cfg), &hints[..1], &format!("{} then writes=[{}]", case, w2.trim()), &[]);
+        let _ = v2;
     }
 }
 
@@ -1023,36 +1058,47 @@ fn case_loaded(ctx: &mut Ctx, idx: usize, rng: &mut Rng) {
 
 fn case_item27(ctx: &mut Ctx, idx: usize, rng: &mut Rng) {
     let out = &mut ctx.out;
-    // a WOZ2 whose META chunk (exactly one 512-byte block long) precedes TRKS and whose TRK entries point at
-    // the shifted blocks: every chunk is found by the walk, every track decodes, the image loads
+    // a WOZ2 whose META chunk (a whole number of 512-byte blocks long) precedes TRKS and whose TRK entries point
+    // at the shifted blocks: every chunk is found by the walk, every track decodes, the image loads
     let mut w = img::woz2::Woz2::create(254, names::A2_DOS33_KIND);
     let b = w.to_bytes();
+    let k = 1 + idx % 3; // blocks inserted before TRKS
     let mut meta = format!("title\tchunk order {}", rng.below(100)).into_bytes();
-    while meta.len() < 503 { meta.push(b'.'); }
+    while meta.len() < 512 * k - 9 { meta.push(b'.'); }
     meta.push(b'\n');
     let mut o = b[..248].to_vec();
     o.extend_from_slice(b"META"); o.extend_from_slice(&(meta.len() as u32).to_le_bytes()); o.extend(&meta);
     o.extend_from_slice(&b[248..]);
     for t in 0..160 {
-        let e = 248 + 512 + 8 + 8 * t;
+        let e = 248 + 512 * k + 8 + 8 * t;
         let start = le16(&o[e..e + 2]);
-        if start > 0 { o[e..e + 2].copy_from_slice(&((start + 1) as u16).to_le_bytes()); }
+        if start > 0 { o[e..e + 2].copy_from_slice(&((start + k) as u16).to_le_bytes()); }
     }
     let crc = crc32_ref(&o[12..]).to_le_bytes();
     o[8..12].copy_from_slice(&crc);
     let case = format!("D idx={} woz2 INFO,TMAP,META({}),TRKS", idx, meta.len());
     match guarded(|| a2kit::create_img_from_bytestream(&o, Some("woz")).map_err(|e| e.to_string())) {
         Ok(Ok(mut i)) => {
-            let before = guarded(|| observe(&mut i).0.sectors);
             match guarded(|| i.to_bytes()) {
                 Ok(b1) => {
                     out.oracle(true, "loaded-image-serialises", "c09/woz2/loaded-nonstandard-chunk-order/to_bytes-panic", &case);
-                    // and what was serialised must reload with the same sectors
-                    let after = guarded(|| a2kit::create_img_from_bytestream(&b1, Some("woz")).map(|mut j| observe(&mut j).0.sectors).map_err(|e| e.to_string()));
-                    let same = match (&before, &after) { (Ok(x), Ok(Ok(y))) => x == y, _ => false };
-                    out.oracle(same, "loaded-image-roundtrip", "c09/woz2/loaded-nonstandard-chunk-order/reload-differs", &case);
+                    // the object model loads the same file, re-bases and must produce the same bytes (length + CRC-32 field)
+                    out.q(&format!("c09 woz2save {}", hx(&o)), &format!("{} 1536 {} {} stable reparse-ok", 1536 + 512 * k, b1.len(), le32(&b1[8..12])));
                 }
-                Err(p) => out.oracle(false, "loaded-image-serialises", "c09/woz2/loaded-nonstandard-chunk-order/to_bytes-panic", &format!("{} panic={}", case, p)),
+                Err(p) => { out.oracle(false, "loaded-image-serialises", "c09/woz2/loaded-nonstandard-chunk-order/to_bytes-panic", &format!("{} panic={}", case, p)); out.case(&o[..300], true); return; }
+            }
+            // a FRESH object from the same bytes goes through the whole oracle (sectors before = after the first
+            // to_bytes, second to_bytes identical, reload equal); then the SAME object is written to and checked again
+            if let Ok(Ok(mut j)) = guarded(|| a2kit::create_img_from_bytestream(&o, Some("woz")).map_err(|e| e.to_string())) {
+                let label = "woz2/loaded-nonstandard-chunk-order";
+                roundtrip_oracle(out, &mut j, label, "woz2", true, &[Some("woz"), None], &case, &[]);
+                match guarded(|| geometry(&mut j).1) {
+                    Ok(geo) => {
+                        let wdesc = random_writes(&mut j, "woz2", &geo, rng, 3, out);
+                        roundtrip_oracle(out, &mut j, label, "woz2", true, &[Some("woz")], &format!("{} then writes=[{}]", case, wdesc.trim()), &[]);
+                    }
+                    Err(p) => out.oracle(false, "object-usable-after-to_bytes", &format!("c09/{}/object-unusable-after-to_bytes:{}", label, site(&p)), &format!("{} panic={}", case, p)),
+                }
             }
         }
         Ok(Err(_)) => { out.count("item27-refused-at-load"); out.oracle(true, "loaded-image-serialises", "c09/woz2/loaded-nonstandard-chunk-order/to_bytes-panic", &case); }
@@ -1069,13 +1115,18 @@ fn case_directed(ctx: &mut Ctx, idx: usize, rng: &mut Rng) {
     let cfgs = configs();
     let find = |typ: &str, kind: &str| cfgs.iter().find(|c| c.typ == typ && c.kind_name == kind).unwrap().clone();
     let p = |v: &[&str]| v.iter().map(|s| s.to_string()).collect::<Vec<String>>();
-    let (cfg, path, val, class): (Cfg, Vec<String>, String, &'static str) = match idx % 6 {
+    let (cfg, path, val, class): (Cfg, Vec<String>, String, &'static str) = match idx % 11 {
         0 => (find("imd", "OSBORNE1_SD"), p(&["imd", "comment"]), "first\u{1a}second".to_string(), "imd-comment-with-eof-char"),
         1 => (find("td0", "OSBORNE1_SD"), p(&["td0", "comment", "notes"]), "line 1\nline 2".to_string(), "td0-notes-with-newline"),
         2 => (find("td0", "OSBORNE1_DD"), p(&["td0", "header", "stepping", "_raw"]), format!("{:02x}", rng.below(3)), "td0-stepping-without-comment-flag"),
         3 => (find("woz2", "A2_DOS33"), p(&["woz2", "meta", "title"]), "Title\r".to_string(), "woz2-meta-value-ending-in-cr"),
         4 => (find("2mg", "A2_400"), p(&["2mg", "header", "blocks"]), random_hex(rng, 4), "2mg-blocks-edit"),
-        _ => (find("2mg", "A2_DOS33"), p(&["2mg", "header", "blocks"]), random_hex(rng, 4), "2mg-blocks-edit"),
+        5 => (find("2mg", "A2_DOS33"), p(&["2mg", "header", "blocks"]), random_hex(rng, 4), "2mg-blocks-edit"),
+        6 => (find("td0", "OSBORNE1_SD"), p(&["td0", "comment", "notes"]), "line 1\r\nline 2\r\n".to_string(), "td0-notes-with-crlf"),
+        7 => (find("td0", "KAYPROII"), p(&["td0", "comment", "notes"]), "cr\r\r\nthen crlf".to_string(), "td0-notes-with-cr-before-crlf"),
+        8 => (find("td0", "OSBORNE1_SD"), p(&["td0", "comment", "notes"]), "nul\u{0}inside\r\u{0}".to_string(), "td0-notes-with-nul"),
+        9 => (find("imd", "OSBORNE1_SD"), p(&["imd", "comment"]), "line 1\r\nline 2\r\r\n".to_string(), "imd-comment-with-crlf"),
+        _ => (find("imd", "KAYPROII"), p(&["imd", "comment"]), "lone cr\rlone lf\nnul\u{0}.".to_string(), "imd-comment-with-cr-lf-nul"),
     };
     let label = format!("{}/{}", cfg.typ, cfg.kind_name);
     let mut img = match guarded(|| build(&cfg, 254)) { Ok(Ok(i)) => i, _ => return };
@@ -1130,13 +1181,13 @@ pub fn run(ctx: &mut Ctx) {
         if !ctx.out.wants(idx) { continue; }
         case_loaded(ctx, idx, &mut r);
     }
-    for i in 0..ctx.n(6, 60) {
+    for i in 0..ctx.n(11, 66) {
         let idx = 40000 + i;
         let mut r = rng.fork(idx as u64);
         if !ctx.out.wants(idx) { continue; }
         case_directed(ctx, idx, &mut r);
     }
-    for i in 0..ctx.n(1, 3) {
+    for i in 0..ctx.n(2, 9) {
         let idx = 30000 + i;
         let mut r = rng.fork(idx as u64);
         if !ctx.out.wants(idx) { continue; }
